@@ -101,7 +101,7 @@ def own_body(ctx: H.BaseCtx):
                 except Exception as e:
                     ctx.unexpected_exception(e, name)
                 check_unmodified(ctx, ops, snap, what="argument of %s" % name)
-            if not ctx.symbolic:
+            if not ctx.symbolic and H.NATIVE_RUN_INDEX == 0:
                 # special values (nan, inf, -0.0, subnormal): output and cleaning code likes to "normalise" them -- not in the argument
                 import io
                 from .. import special as SP
@@ -132,7 +132,7 @@ def own_body(ctx: H.BaseCtx):
                             if SP.bytes_of(sp) != before:
                                 ctx.fail("mutated", "%s changed the bytes of its argument (coefficients incl. %s, -0.0, 5e-324)" % (name, pair))
                                 before = SP.bytes_of(sp)
-            if not ctx.symbolic:
+            if not ctx.symbolic and H.NATIVE_RUN_INDEX == 0:
                 # arguments that are not polynomials at all -- index arrays, repeat counts, split points, bounds -- given as int64
                 # ndarrays (the kind a conversion with asarray returns unchanged): byte-identical afterwards, whatever the call does
                 q0 = numpoly.variable()
@@ -279,6 +279,17 @@ def gen_cases(tier: str, seed: int) -> List[Dict]:
     v = S.make_poly_spec("a", names, exps, (2, 3), rng, 4, mode="raw")
     v["view"] = "T"
     add("unary-all", [v])
+    # operands with many stored terms (9 x 8 and 70 x 2 term pairs), some all-zero, names already common: whatever is handed through
+    # unchanged by alignment is still the caller's object
+    def wide(prefix, nterms, zero_at, shape=()):
+        rows = [[e] for e in range(nterms)]
+        n_ = S.size_of(shape)
+        slots = [[(0 if e in zero_at else ((e * 5 + i) % 7) + 1) for i in range(n_)] for e in range(nterms)]
+        return {"kind": "poly", "names": ["q0"], "exps": rows, "shape": list(shape), "slots": slots, "mode": "raw"}
+
+    add("binary-all", [wide("a", 9, {3, 6}), wide("b", 8, set())], nodiv=True)
+    add("binary-all", [wide("a", 70, {1, 40}, (2,)), wide("b", 2, {1}, (2,))], nodiv=True)
+    add("unary-all", [wide("a", 70, {5, 69}, (2,))])
     # native dtype layer: coefficient types the constructors may want to convert (foreign byte order, narrow, unsigned): a conversion
     # done in place on the caller's array shows as a byte difference in the snapshot
     for dt in [">f8", ">i8", ">u4", "float32", "int16", "uint64", ">c16", "float16"]:
